@@ -3,7 +3,7 @@
 From Coq Require Import List ZArith NArith Bool Lia.
 From DH Require Import Lib.CheckLib Model.Store Model.Refs Model.Query Model.GraphSpec Model.PointInTime
      Proofs.StoreProofs Proofs.RefsProofs Proofs.QueryProofs Proofs.RefsInv Proofs.C06Proofs
-     Check.C03Check Check.C06Check.
+     Proofs.C06CheckProofs Check.C03Check Check.C06Check.
 Import ListNotations.
 Open Scope Z_scope.
 
@@ -87,6 +87,35 @@ Theorem C06_related_body_refuted_now :
   /\ body_of false (rs_st rs') fr1 k1 = body_of false (rs_st rs) fr1 k1.
 Proof. vm_compute. repeat split; try reflexivity. discriminate. Qed.
 Print Assumptions C06_related_body_refuted_now.
+
+(** tie to the correspondence check.  The executable spec of C06 involves no model: two observations of the
+    implementation agree - what a probe returns when pinned to the instant it was first asked at is what it
+    returned then ([spec_ok]).  If BOTH observations agree with the repaired model, they agree with each other
+    (by C06_entity, C06_related, now = then and the fact that a URI asserted only later is on no earlier key or
+    version).  Well-formed: page limits >= 0, relationship probes with one start point, fewer than 2^62 writes. *)
+Theorem C06_agree_implies_spec : forall c, wf_pcase c -> C06Check.agree pv_fixed c = true -> C06Check.spec_ok c = true.
+Proof. exact agree_implies_spec_c06. Qed.
+Print Assumptions C06_agree_implies_spec.
+
+Example C06_link_nonvacuous :
+  let b8 : body := ([(2, cprop 1 [])], false) in
+  let c := {| pc_ds := [2; 3];
+              pc_ops := [PWrite (WBatch 2 [{| e_id := 5; e_c := cprop 1 [(6, [8])] |}; {| e_id := 8; e_c := cprop 1 [] |}]);
+                         PAsk 0 (BGet 8 []) (OGet true b8);
+                         PAsk 1 (BRel [5] 0 false [] [1]) (ORel (Some [[((5, 6, 8), b8)]]));
+                         PAsk 2 (BGet 9 [2]) (OGet false ([], false));
+                         PAsk 3 (BRel [8] 6 true [99] [0]) (ORel (Some [[]]));
+                         PWrite (WBatch 2 [{| e_id := 8; e_c := cprop 2 [] |}; {| e_id := 9; e_c := cprop 1 [(6, [8])] |}]);
+                         PPin 0 (OGet true b8);
+                         PPin 1 (ORel (Some [[((5, 6, 8), b8)]]));
+                         PPin 2 (OGet true ([], false));
+                         PPin 3 (ORel (Some [[]]))] |} in
+  wf_pcase c /\ C06Check.agree pv_fixed c = true /\ C06Check.spec_ok c = true /\ C06Check.agree pv_current c = false.
+Proof.
+  cbv zeta. split; [|vm_compute; repeat split; reflexivity].
+  split; [|vm_compute; discriminate].
+  repeat (constructor; [cbn; try exact I; try (split; [eexists; reflexivity | repeat constructor; lia])|]). constructor.
+Qed.
 
 (** non-vacuity: several versions sharing one commit time inside a batch, tombstones sorting after live keys,
     a later delete and a transaction; pinned lookup and pinned paged incoming / outgoing queries *)
